@@ -482,8 +482,8 @@ class Interp(ExprMixin, CallMixin):
         return out
 
     def bind_loop_target(self, target, itv, st, iternode):
-        if itv.k == 'rows':
-            elem = V('row', itv.a[0])
+        if itv.k in ('rows', 'cursor'):
+            elem = V('row', itv.a[0])       # iterating the cursor itself yields the same rows as fetchall()
         elif itv.k in ('tuple', 'list') and len(itv.a[0]) == 1:
             elem = itv.a[0][0]
         elif itv.k == 'star':
